@@ -35,6 +35,31 @@ CHECKS = {
                 note=TB + "; hw/Npu.v footprint model trusted; intended identities are read from the compiler's own high-level "
                      "command stream by tools/wrap.py (run-time wrapper); views of one buffer with inconsistent strides are not "
                      "distinguished (C06/C10)"),
+    "C09": dict(cat="proof", ref="7/C09", technique="Coq theorems over quantise_scale / reduced_quantise_scale / quantise_pooling_scale translated from the source every run (gen_*_eq lemmas) + correspondence for the float step, the elementwise triples and the register call sites",
+                text="quantise_scale_accurate(_Q): for every positive dyadic scale in range the pair has 2^30<=q<=2^31, 0<=shift<=63 and "
+                     "relative error <= 2^-31; quantise_scale_degrades; quantise_scale_eq_tflite (same rational as TFLite "
+                     "QuantizeMultiplier for shifts 0..62, difference at 63 stated); reduced form: error <= 2^-15+2^-31, multiplier "
+                     "<= 32767; pooling_scale_exact: round-half-up division for every accumulator whenever 2nA < 2^31 (all 8-bit "
+                     "windows <= 65536, int16 windows <= 2^15) with refutation witnesses beyond; assert-freedom. Elementwise "
+                     "add/sub/mul triples: partial (hand float model at 53 bits tied by correspondence, equality with the reference "
+                     "derivation proved on the model). The source functions are re-translated on every run.",
+                note=TB + "; floats as exact dyadics (IEEE exactness at these call sites exercised by correspondence: 2^23 "
+                     "mantissa sweeps); pooling exactness assumes natural rounding in the NPU; open finding: int16 windows > 2^15"),
+    "C15": dict(cat="proof", ref="7/C15", technique="Coq theorems over _try_block_config and helpers translated from the source every run + hand model of find_block_config/try_block_config; oracle on api.npu_find_block_configs; proved register validator on generated ops and compiled streams",
+                text="try_layout_wellformed (all inputs, any SHRAM config): ordered, disjoint, in-range partitions each double-buffering its "
+                     "block at the bank granule; find_config_valid / offered_config_valid for the six accelerator rows (regenerated by "
+                     "introspection) and all shapes: block is a positive multiple of the micro-block within the maximum with a "
+                     "well-formed layout; offered_is_accepted proved for the scaling-agnostic rows and refuted (witness) for "
+                     "ethos-u55-128 under differing `scaled` arguments; check_blockcfg_sound for the register validator. Every "
+                     "block the public query offers is fed back through the real generator and the emitted registers are checked.",
+                note=TB + "; float cost function and the API candidate loop are correspondence-only; hardware table in c15.py"),
+    "C18": dict(cat="proof", ref="7/C18", technique="Coq theorems over a hand model of _read_config/_get_vela_config/main path handling against a Gallina transcription of OPTIONS.md + differential correspondence with ArchitectureFeatures and vela.main across working directories",
+                text="read_config_spec / read_config_terminates (acyclic inheritance: nearest binding ancestor wins, fuel suffices; cycle "
+                     "witness inherit_cycle_refuted), resolve_matches_doc and main_matches_doc for ALL files, selections, CLI overrides "
+                     "and file-system views, rejection theorems (unknown section, self-inheritance, illegal mappings, out-of-range "
+                     "sizes), config_path_spec / config_path_cwd_independent. The three parameters of main() the model depends on are "
+                     "read off vela.py's AST (or identified behaviourally) on every run.",
+                note=TB + "; ConfigParser/argparse/os.path modelled not verified; open finding: CLI internal default is the i.MX93 table"),
     "C11": dict(cat="translation_validation", ref="7/C11", technique="Coq-proved preservation validator (check_preserved_sound) on (source, output) model summaries of real compilations; matching supplied as checked witness",
                 text="Theorem check_preserved_sound (Coq): acceptance implies the same subgraph inputs/outputs in order with equal "
                      "(name, shape, type, quantisation); every CPU-resident operator of the output is a distinct source operator "
